@@ -235,6 +235,9 @@ Loop:
 		case optionKindNop: // 1 byte padding
 			opt.OptionLength = 1
 		default:
+			if len(data) < 2 {
+				return fmt.Errorf("Invalid TCP option %d: missing length", opt.OptionType)
+			}
 			opt.OptionLength = data[1]
 			if opt.OptionLength < 2 {
 				return fmt.Errorf("Invalid TCP option length %d < 2", opt.OptionLength)
